@@ -122,16 +122,6 @@ theorem findRoot_fields (fs : FS) :
 
 /-! ### buildIndexFromResolvedLocked -/
 
-theorem orderBy_nodup (σ xs : List String) (h : xs.Nodup) : (orderBy σ xs).Nodup := by
-  unfold orderBy
-  rw [List.nodup_append]
-  refine ⟨dedup_nodup _, h.filter _, ?_⟩
-  intro a ha b hb e
-  subst e
-  have := (List.mem_filter.mp hb).2
-  simp only [decide_eq_true_eq] at this
-  exact this ha
-
 /-- the loop body of `buildIndexFromResolvedLocked` -/
 def addIdx (cfg : Cfg) (w : WS) (path : String) (c : Contrib) : WS := putFile cfg w path c []
 
@@ -217,14 +207,14 @@ theorem emptyWS_ginv (cfg : Cfg) (fs : FS) (root : String) (hr : Bool) (p : Opti
    fun q x => by simp [includesOf, AList.getD, NoDead]⟩
 
 /-- `Initialize` establishes the invariant. -/
-theorem init_ok (cfg : Cfg) (σ : List String) (fs : FS) (hok : fsOk fs = true) (hne : fs ≠ [])
+theorem init_ok (cfg : Cfg) (fs : FS) (hok : fsOk fs = true) (hne : fs ≠ [])
     (hclean : graphsClean cfg fs) (hlim : fs.length ≤ cfg.limit) :
-    WInv cfg fs (init cfg σ fs) ∧ (init cfg σ fs).root = rootSel fs ∧ CachesNone (init cfg σ fs) := by
+    WInv cfg fs (init cfg fs) ∧ (init cfg fs).root = rootSel fs ∧ CachesNone (init cfg fs) := by
   have hrex := rootSel_exists fs hne
   obtain ⟨c, hc⟩ := Option.isSome_iff_exists.mp hrex
   obtain ⟨hrne, hcok⟩ := fsOk_get fs hok _ c hc
   obtain ⟨g1, g2, g3, g4, g5⟩ := findRoot_fields fs
-  have hinit : init cfg σ fs = buildIndexFromResolved cfg σ
+  have hinit : init cfg fs = buildIndexFromResolved cfg
       { root := rootSel fs, hasResolved := true, primary := some c,
         rfiles := (load cfg.limit fs (rootSel fs) c).files,
         order := (load cfg.limit fs (rootSel fs) c).order } := by
@@ -266,19 +256,19 @@ theorem init_ok (cfg : Cfg) (σ : List String) (fs : FS) (hok : fsOk fs = true) 
     rw [files_putFile cfg w0 _ c [] hrne y]
     simp [w0]
   have hrf : ∀ x c', st.files.get x = some c' → fs.get x = some c' := fun x c' h => ((l1 x c').mp h).2.2
-  have hL : ∀ x ∈ orderBy σ st.files.keys,
+  have hL : ∀ x ∈ isort st.files.keys,
       (putFile cfg w0 (rootSel fs) c []).idx.files.get x = none ∧ (st.files.get x).isSome := by
     intro x hx
-    have hxk := (mem_orderBy _ _ _).mp hx
+    have hxk := (mem_isort _ _).mp hx
     have hsome := (mem_keys_iff _ _).mp hxk
     obtain ⟨c', hc'⟩ := Option.isSome_iff_exists.mp hsome
     have hne' := ((l1 x c').mp hc').2.1
     rw [hfiles1 x]
     simp [Ne.symm hne', hsome]
-  have hb := buildAll cfg fs hok st.files hrf (orderBy σ st.files.keys) _ hput
-    (orderBy_nodup _ _ hstn) hL
-  have hbuild : buildIndexFromResolved cfg σ w0 =
-      (orderBy σ st.files.keys).foldl (fun w path =>
+  have hb := buildAll cfg fs hok st.files hrf (isort st.files.keys) _ hput
+    (isort_nodup _ hstn) hL
+  have hbuild : buildIndexFromResolved cfg w0 =
+      (isort st.files.keys).foldl (fun w path =>
         match st.files.get path with
         | some c => addIdx cfg w path c
         | none => w) (putFile cfg w0 (rootSel fs) c []) := by
@@ -315,9 +305,9 @@ theorem init_ok (cfg : Cfg) (σ : List String) (fs : FS) (hok : fsOk fs = true) 
         | none => exact ih w hw
         | some ca => exact ih _ hw
     exact hloop _ _ rfl
-  show WInv cfg fs (buildIndexFromResolved cfg σ w0) ∧ _
+  show WInv cfg fs (buildIndexFromResolved cfg w0) ∧ _
   rw [hbuild]
-  generalize hwf : (orderBy σ st.files.keys).foldl _ (putFile cfg w0 (rootSel fs) c []) = wf at hb
+  generalize hwf : (isort st.files.keys).foldl _ (putFile cfg w0 (rootSel fs) c []) = wf at hb
   obtain ⟨o1, o2, o3, o4, o5, o6, o7, o8⟩ := hb.other
   obtain ⟨p1, p2, p3, p4, p5, p6, p7, p8⟩ := putFile_other cfg w0 (rootSel fs) c []
   have hroot : wf.root = rootSel fs := o1.trans p1
@@ -326,13 +316,13 @@ theorem init_ok (cfg : Cfg) (σ : List String) (fs : FS) (hok : fsOk fs = true) 
       else (st.files.get y).map (mkFileIdx y) := by
     intro y
     rw [hb.files y, hfiles1 y]
-    by_cases e1 : y ∈ orderBy σ st.files.keys
-    · have hxk := (mem_orderBy _ _ _).mp e1
+    by_cases e1 : y ∈ isort st.files.keys
+    · have hxk := (mem_isort _ _).mp e1
       obtain ⟨c', hc'⟩ := Option.isSome_iff_exists.mp ((mem_keys_iff _ _).mp hxk)
       have h3 := (l1 y c').mp hc'
       simp [e1, h3.2.1, hc', h3.2.2]
     · have : st.files.get y = none := by
-        rw [get_eq_none_iff]; exact fun h => e1 ((mem_orderBy _ _ _).mpr h)
+        rw [get_eq_none_iff]; exact fun h => e1 ((mem_isort _ _).mpr h)
       by_cases e2 : rootSel fs = y
       · subst e2; simp [e1]
       · have : ¬ y = rootSel fs := fun h => e2 h.symm
@@ -382,16 +372,16 @@ theorem step_ok (cfg : Cfg) (s : St) (u : Upd) (h : WInv cfg s.fs s.w) (hok : fs
   have hget : (s.fs.set u.path u.c).get u.path = some u.c := get_set_self _ _ _
   have hother : ∀ y, y ≠ u.path → (s.fs.set u.path u.c).get y = s.fs.get y :=
     fun y hy => get_set_ne _ _ _ _ (Ne.symm hy)
-  obtain ⟨h1, r1⟩ := updateFile_ok cfg u.σ1 s.fs (s.fs.set u.path u.c) s.fs s.w u.path u.c h hok' hget
+  obtain ⟨h1, r1⟩ := updateFile_ok cfg s.fs (s.fs.set u.path u.c) s.fs s.w u.path u.c h hok' hget
     hother (fun y hy => (hother y hy).symm)
   have h1' := observe_winv cfg _ _ h1
-  obtain ⟨h2, r2⟩ := updateFile_ok cfg u.σ2 (s.fs.set u.path u.c) (s.fs.set u.path u.c)
+  obtain ⟨h2, r2⟩ := updateFile_ok cfg (s.fs.set u.path u.c) (s.fs.set u.path u.c)
     (s.fs.set u.path u.c) _ u.path u.c h1' hok' hget (fun _ _ => rfl) (fun _ _ => rfl)
   have h2' := observe_winv cfg _ _ h2
   refine ⟨h2', hok', ?_, rfl⟩
   show (observe _).2.root = _
   rw [observe_snd]
-  show (updateFile cfg u.σ2 _ (observe _).2 u.path u.c).root = _
+  show (updateFile cfg _ (observe _).2 u.path u.c).root = _
   rw [r2, observe_snd]
   exact r1
 
